@@ -411,7 +411,7 @@ const atomNetFee = 50_000_000
 func (r *run) twinBlocks(T *Node, x, y *transaction.Transaction, extra []*transaction.Transaction, what string, wantFault bool) (*state.AppExecResult, *state.AppExecResult, bool) {
 	split := r.tape.Choose(len(extra) + 1)
 	mk := func(mid *transaction.Transaction) []*transaction.Transaction {
-		var txs []*transaction.Transaction
+		txs := append([]*transaction.Transaction{}, r.beforeX...)
 		for _, e := range extra[:split] {
 			txs = append(txs, e)
 		}
@@ -727,6 +727,28 @@ func (r *run) atomCaught(T *Node, signer neotest.SingleSigner, extra []*transact
 		xs, ys = entry(dyn(1+ap.Pieces[0].Y%2)), entry(dyn(0))
 		r.out.Faults["caught_exception/in-dynamic-script"]++
 	}
+	viaToken := !nested && ap.Pieces[0].A%6 == 3
+	if viaToken {
+		// the failing callee is reached through a method token (CALLT, a statically linked call) under a try block of a
+		// contract deployed earlier in the same block: k1.seq(effects..., fail) against k1.seq(fail). What the callee wrote
+		// and notified before it threw has to vanish exactly as after a dynamic call.
+		tk := buildTok(fmt.Sprintf("TK%d", ap.Pieces[0].X), k1)
+		tkh := tk.hashFor(signer.ScriptHash())
+		r.prod.nonce++
+		dtx := r.rawTx(r.P, callScript(nativehashes.ContractManagement, "deploy", tk.NEFBytes, tk.ManBytes, nil), signer, 25_00000000, atomNetFee, r.prod.nonce)
+		r.beforeX = []*transaction.Transaction{dtx}
+		defer func() { r.beforeX = nil }()
+		tok := func(list []any) []byte {
+			return callScript(k0, "seq", []any{
+				[]any{"put", []any{key, val}},
+				[]any{"ev", []any{[]byte("before")}},
+				[]any{"call", []any{tkh, "tryTok", []any{list}}},
+				[]any{"ev", []any{[]byte("after")}},
+				[]any{"put", []any{kKeys[(ap.Pieces[0].X+1)%len(kKeys)], []byte{0x55}}}})
+		}
+		xs, ys = tok(failing), tok([]any{[]any{"fail", []any{}}})
+		r.out.Faults["caught_exception/via-method-token"]++
+	}
 	manyCaught := !nested && ap.Pieces[0].A%6 == 4
 	if manyCaught {
 		// hundreds of exceptions thrown one CALL frame deep (a function with nine arguments) and caught by the caller in
@@ -774,6 +796,13 @@ func (r *run) atomCaught(T *Node, signer neotest.SingleSigner, extra []*transact
 	ax, ay, ok := r.twinBlocks(T, x, y, extra, fmt.Sprintf("caught@depth%d effects=%d", ap.Depth, len(effects)), false)
 	if r.fail != nil {
 		return
+	}
+	if viaToken && ax != nil && ay != nil {
+		r.out.Probes["token_script_x_"+ax.VMState.String()]++
+		r.out.Probes["token_script_twin_"+ay.VMState.String()]++
+		if ok {
+			r.out.Probes["token_forks_compared"]++
+		}
 	}
 	if manyCaught && ax != nil && ay != nil {
 		r.out.Probes["loop_script_x_"+ax.VMState.String()]++
